@@ -730,6 +730,14 @@ def execute(case):
     guarded(lambda: s6.calc(wv))
     o6, sc6 = guarded(lambda: s6.calc(w))
     case["rep"].append(slim(o6, sc6))
+    if o6 == "ok" and ok_names:
+        # the resources of THIS result, whatever the scheduler listed for the plan it saw before
+        try:
+            names6 = [r.name for r in sc6.resources]
+            if any(names6.count(rname_of(r["name"])) != 1 for r in I["resources"]):
+                case["obs"]["resnames"] = False
+        except Exception:
+            case["obs"]["resnames"] = False
     # (4) Resource objects that served ANOTHER calendar in an earlier calc (calendar replaced afterwards)
     pj = common.pjplan()
     other_cal = cal.weekly_list([0, 1, 2, 3, 4, 5, 6], cal.q(3))
@@ -802,6 +810,15 @@ def build_variant(I):
         t["spent"] = NOQ
         t["minStart"] = MISSING
     w, _, _ = build_wbs(J)
+    # ... and fewer resources: every task works for the resource of the first leaf (the judged plan then names
+    # resources this scheduler has not met)
+    ts = list(w.tasks)
+    first = next((t.resource for t in ts if not len(t.children)), None)
+    for t in ts:
+        try:
+            t.resource = first
+        except Exception:
+            pass
     return w
 
 
